@@ -314,6 +314,28 @@ pub fn observe(case: &Value) -> Value {
                 })
             }).collect::<Vec<_>>());
         }
+        if msg.class() == MessageClass::Request {
+            // responses derived from the request by the library's helpers
+            let describe = |bytes: Vec<u8>| -> Value {
+                match Message::from_bytes(&bytes) {
+                    Err(e) => perr(&e),
+                    Ok(r) => {
+                        let rt: u128 = r.transaction_id().into();
+                        json!({"hdr": {"class": class_name(r.class()), "method": r.method(), "tid": rt.to_be_bytes()[4..].to_vec()},
+                               "code": r.attribute::<ErrorCode>().map(|e| e.code() as i64).unwrap_or(-1),
+                               "unknown": r.raw_attribute(UnknownAttributes::TYPE).map(|u| u.value.chunks(2).map(|c| u16::from_be_bytes([c[0], c[1]])).collect::<Vec<u16>>()).unwrap_or_default(),
+                               "types": r.iter_attributes().map(|a| a.get_type().value()).collect::<Vec<u16>>()})
+                    }
+                }
+            };
+            acc["resp"] = guard(|| {
+                let unk = [AttributeType::new(6), AttributeType::new(0x8022), AttributeType::new(0xffff)];
+                json!({"success": describe(Message::builder_success(&msg).build()),
+                       "bad": describe(Message::bad_request(&msg).build()),
+                       "unk": describe(Message::unknown_attributes(&msg, &unk).build()),
+                       "unk0": describe(Message::unknown_attributes(&msg, &[]).build())})
+            });
+        }
         acc["fmt"] = guard(|| json!({"display": format!("{}", msg).len(), "debug": format!("{:?}", msg).len()}));
         o["acc"] = acc;
     }
